@@ -450,7 +450,13 @@ func concatStrings(lhs *ValueExpression, rhs *ValueExpression) *ValueExpression 
 
 	// lhs is string, add rhs to prefix of first var
 	if lhs.FString == nil && rhs.FString != nil {
-		rhs.FString.Vars[0].Prefix = lhs.String[1:len(lhs.String)-1] + rhs.FString.Vars[0].Prefix
+		prefix := lhs.String[1 : len(lhs.String)-1]
+		if len(rhs.FString.Vars) == 0 {
+			// An f-string without any variables only has a suffix.
+			rhs.FString.Suffix = prefix + rhs.FString.Suffix
+		} else {
+			rhs.FString.Vars[0].Prefix = prefix + rhs.FString.Vars[0].Prefix
+		}
 		return rhs
 	}
 
